@@ -56,7 +56,7 @@ func canGlue(a, b string) bool {
 	return false
 }
 
-var ignoredSeps = []string{" ", " ", " ", ",", "\n", "\r\n", "\t", "\r", " , ", "\n\n", " # c\n", "#\n", "  ", "\ufeff", " #x,y {\r\n", " # é日本\U0001F600\n"}
+var ignoredSeps = []string{" ", " ", " ", ",", "\n", "\r\n", "\t", "\r", " , ", "\n\n", " # c\n", "#\n", "  ", "\ufeff", " #x,y {\r\n", " # é日本\U0001F600\n", " #c\r"}
 
 // RenderSpaces joins lexemes with single spaces.
 func RenderSpaces(toks []RTok) string {
@@ -65,6 +65,20 @@ func RenderSpaces(toks []RTok) string {
 		parts[i] = t.Text
 	}
 	return strings.Join(parts, " ")
+}
+
+// RenderComments puts a comment (ended by LF, CRLF or a bare CR in turn) into
+// every gap: whatever the parser does between two tokens, it does it across a comment.
+func RenderComments(toks []RTok, k int) string {
+	ends := []string{"\n", "\r\n", "\r"}
+	var b strings.Builder
+	for i, t := range toks {
+		if i > 0 {
+			b.WriteString(" # c" + ends[abs3(i+k)])
+		}
+		b.WriteString(t.Text)
+	}
+	return b.String()
 }
 
 // RenderIgnored joins lexemes with randomly chosen ignored tokens (white
@@ -163,7 +177,7 @@ func (gb *GrammarBind) checkSentence(st *grammarStats, toks []RTok, evs []TreeEv
 		exp = gb.Norm(exp)
 	}
 	r := rand.New(rand.NewSource(seed))
-	texts := []string{RenderSpaces(toks), RenderIgnored(toks, r)}
+	texts := []string{RenderSpaces(toks), RenderIgnored(toks, r), RenderComments(toks, int(seed))}
 	for _, text := range texts {
 		tree, ok, crash := gb.Parse(text)
 		switch {
@@ -672,3 +686,11 @@ func runGrammarCheck(c *core.Ctx, gb *GrammarBind, plan GrammarPlan) {
 	}
 }
 
+
+func abs3(x int) int {
+	x %= 3
+	if x < 0 {
+		x += 3
+	}
+	return x
+}
